@@ -63,6 +63,7 @@ fn exact_case(cfg: &Cfg, grp: &str, case: u64, rng: &mut Rng, rep: &mut Report, 
     let o = Obs { cfg, grp, case, spec: &spec };
     let nl = kit.levels.len();
     rep.count("chains", &format!("{}|levels={}|keylevel_separate={}", spec.scheme_name(), nl, kit.has_keyswitching()));
+    if case == 0 { rep.sample(json!({"group": grp, "params": spec.describe(), "data_levels": nl, "calls": "every (source,target) pair x sizes 2..4 x {mod_switch_to, mod_switch_to_next, rescale refusals, mod_switch_plain_to} x {inplace,dest,new}, each under a watchdog", "level_moduli": (0..nl).map(|l| kit.level_qs(l)).collect::<Vec<_>>()})); }
     // BGV correction factor bookkeeping reference: f * prod q_dropped^-1 mod t
     let t = spec.t;
     for size in 2..=4usize {
@@ -224,6 +225,7 @@ fn ckks_case(cfg: &Cfg, grp: &str, case: u64, rng: &mut Rng, rep: &mut Report, l
     let o = Obs { cfg, grp, case, spec: &spec };
     let nl = kit.levels.len(); let n = kit.n();
     rep.count("chains", &format!("CKKS|levels={}|keylevel_separate={}", nl, kit.has_keyswitching()));
+    if case == 0 { rep.sample(json!({"group": grp, "params": spec.describe(), "data_levels": nl, "calls": "every (source,target) pair x sizes 2..4 x {mod_switch_to, rescale_to} x {inplace,dest,new} + plaintext switching", "level_moduli": (0..nl).map(|l| kit.level_qs(l)).collect::<Vec<_>>()})); }
     let Ok(oracle) = Oracle::new(&kit.ctx, &kit.sk) else { return };
     let enc = kit.ckks.as_ref().unwrap();
     let bits_of = |l: usize| -> f64 { kit.level_qs(l).iter().map(|&q| (q as f64).log2()).sum() };
